@@ -49,6 +49,49 @@ Proof.
   apply (dedupe_distinct new [] H2).
 Qed.
 
+(* ---------- mappings: a mapping built by successive dict_set has pairwise different keys, in order ---------- *)
+Definition fresh_in (earlier : list pyval) (k : pyval) : bool := forallb (fun k' => negb (py_eq k' k)) earlier.
+Fixpoint kd_after (earlier : list pyval) (l : list (pyval * pyval)) : Prop :=
+  match l with
+  | [] => True
+  | kv :: r => fresh_in earlier (fst kv) = true /\ kd_after (earlier ++ [fst kv]) r
+  end.
+
+Lemma dict_set_fresh_gen acc k v : fresh_in (map fst acc) k = true -> dict_set acc k v = acc ++ [(k, v)].
+Proof.
+  induction acc as [|[k' v'] r IH]; cbn [map fst fresh_in forallb dict_set app]; intros H; [reflexivity|].
+  apply andb_prop in H. destruct H as [H1 H2]. apply negb_true_iff in H1. rewrite H1.
+  rewrite IH by exact H2. reflexivity.
+Qed.
+
+Lemma fresh_in_app e k' k : fresh_in (e ++ [k']) k = fresh_in e k && negb (py_eq k' k).
+Proof. unfold fresh_in. rewrite forallb_app. cbn [forallb]. rewrite andb_true_r. reflexivity. Qed.
+
+Lemma dict_set_kd l k v : forall e, fresh_in e k = true -> kd_after e l -> kd_after e (dict_set l k v).
+Proof.
+  induction l as [|[k' v'] r IH]; intros e Hf Hk; cbn [dict_set].
+  - cbn [kd_after fst]. split; [exact Hf|exact I].
+  - cbn [kd_after fst] in Hk. destruct Hk as [Hk1 Hk2]. destruct (py_eq k' k) eqn:E.
+    + cbn [kd_after fst]. split; assumption.
+    + cbn [kd_after fst]. split; [exact Hk1|]. apply IH; [|exact Hk2].
+      rewrite fresh_in_app, Hf, E. reflexivity.
+Qed.
+
+Lemma dict_set_keys (P : pyval -> Prop) l k v :
+  Forall (fun kv => P (fst kv)) l -> P k -> Forall (fun kv => P (fst kv)) (dict_set l k v).
+Proof.
+  induction l as [|[k' v'] r IH]; intros Hl Hk; cbn [dict_set].
+  - constructor; [exact Hk|constructor].
+  - inversion Hl as [|? ? H1 H2]; subst. destruct (py_eq k' k); constructor; auto.
+Qed.
+Lemma dict_set_vals (P : pyval -> Prop) l k v :
+  Forall (fun kv => P (snd kv)) l -> P v -> Forall (fun kv => P (snd kv)) (dict_set l k v).
+Proof.
+  induction l as [|[k' v'] r IH]; intros Hl Hv; cbn [dict_set].
+  - constructor; [exact Hv|constructor].
+  - inversion Hl as [|? ? H1 H2]; subst. destruct (py_eq k' k); constructor; auto.
+Qed.
+
 (* ---------- builtin classes: converting a result again returns it ---------- *)
 Lemma handle_unresolved_same u c v w : handle_unresolved u c v = Ok w -> w = v.
 Proof.
@@ -152,6 +195,65 @@ Proof.
   - unfold route_idx. unfold refixed in Hx. rewrite Hx. rewrite IH, <- app_assoc. reflexivity.
 Qed.
 
+(* ---- _parse_map_args ---- *)
+Lemma grew_contra o e fr s s1 s' :
+  handle_error o e fr s = (s1, Ok tt) -> grows s1 s' -> e_errors s' = e_errors s -> False.
+Proof.
+  intros Hh [x Hx] Heq. apply handle_error_ok_adds in Hh.
+  rewrite Hx, Hh, <- app_assoc in Heq. rewrite <- (app_nil_r (e_errors s)) in Heq at 2.
+  apply app_inv_head in Heq. discriminate.
+Qed.
+
+Definition good_map (o : options) (depth : Z) (kt vt : ty) (l : list (pyval * pyval)) : Prop :=
+  kd_after [] l /\
+  Forall (fun kv => produced o depth kt (fst kv) /\ hashable_deep (fst kv) = true) l /\
+  Forall (fun kv => produced o depth vt (snd kv)) l.
+
+Lemma map_items_produced o depth kt vt : throwing o ->
+  forall items acc s s' res,
+  map_items tr o depth kt (Some vt) items acc s = (s', Ok res) ->
+  grows s s' /\ (e_errors s' = e_errors s -> good_map o depth kt vt acc -> good_map o depth kt vt res).
+Proof.
+  intros (_ & Hpk & Hpv). induction items as [|[k0 v0] rest IH]; intros acc s s' res H; cbn [map_items] in H.
+  - injection H as <- <-. split; [apply grows_refl|]. intros _ Hg. exact Hg.
+  - destruct (enter_tr tr o depth true kt k0) as [e|kr] eqn:Ek; [discriminate H|].
+    destruct kr as [k|e| | |]; try discriminate H.
+    + cbn [ret] in H. unfold mbind at 1, ret in H. unfold route_val in H.
+      destruct (enter_tr tr o depth true vt v0) as [e|[v|e| | |]] eqn:Ev; try discriminate H.
+      * destruct (hashable_deep k) eqn:Eh; [|discriminate H].
+        destruct (IH _ _ _ _ H) as [G Hn]. split; [exact G|]. intros Heq (Hkd & Hks & Hvs). apply (Hn Heq).
+        split; [apply dict_set_kd; [reflexivity|exact Hkd]|].
+        split; [apply (dict_set_keys (fun x => produced o depth kt x /\ hashable_deep x = true)); [exact Hks|]|
+                apply (dict_set_vals (fun x => produced o depth vt x)); [exact Hvs|]].
+        -- split; [exists k0; exact Ek|exact Eh].
+        -- exists v0; exact Ev.
+      * rewrite Hpv in H. apply mbind_ok in H. destruct H as (s1 & [] & Hh & H).
+        destruct (IH _ _ _ _ H) as [G _].
+        split; [eapply grows_trans; [eapply handle_error_grows; exact Hh|exact G]|].
+        intros Heq. exfalso. eapply grew_contra; eassumption.
+    + rewrite Hpk in H. apply mbind_ok in H. destruct H as (s1 & ko & Hk & H).
+      apply mbind_ok in Hk. destruct Hk as (s2 & [] & Hh & Hk). injection Hk as <- <-.
+      destruct (IH _ _ _ _ H) as [G _].
+      split; [eapply grows_trans; [eapply handle_error_grows; exact Hh|exact G]|].
+      intros Heq. exfalso. eapply grew_contra; eassumption.
+Qed.
+
+Lemma map_items_refixed o depth kt vt items :
+  Forall (fun kv => refixed o depth kt (fst kv) /\ hashable_deep (fst kv) = true /\ refixed o depth vt (snd kv)) items ->
+  forall acc s, kd_after (map fst acc) items ->
+  map_items tr o depth kt (Some vt) items acc s = (s, Ok (acc ++ items)).
+Proof.
+  induction 1 as [|[k v] r (Hk & Hh & Hv) HF IH]; intros acc s Hkd; cbn [map_items].
+  - rewrite app_nil_r. reflexivity.
+  - cbn [fst snd] in *. unfold refixed in Hk, Hv. rewrite Hk. cbn [ret]. unfold mbind at 1, ret.
+    unfold route_val. rewrite Hv, Hh.
+    cbn [kd_after fst] in Hkd. destruct Hkd as [Hf Hkd].
+    rewrite dict_set_fresh_gen by exact Hf.
+    rewrite IH.
+    + rewrite <- app_assoc. reflexivity.
+    + rewrite map_app. exact Hkd.
+Qed.
+
 (* ---- the validator loop: checking constraints that all accepted accept again, in any state ---- *)
 Lemma run_validators_again o vals v : checking_vals vals = true -> constraints_hold re vals v ->
   forall s2, run_validators re o vals v s2 = (s2, Ok v).
@@ -245,8 +347,9 @@ Proof.
   - (* the origin returned None *)
     apply origin_ok in Hor.
     assert (Hot : stable ot = true /\ typed ot PNone = true).
-    { cbn [typed] in Hty. destruct args as [|a [|]]; try discriminate Hshape; [split; assumption|].
-      destruct ot as [|p| | |]; try discriminate Hshape. destruct p; discriminate Hty. }
+    { cbn [typed] in Hty. destruct args as [|a [|b [|]]]; try discriminate Hshape; [split; assumption| |].
+      - destruct ot as [|p| | |]; try discriminate Hshape. destruct p; discriminate Hty.
+      - destruct ot as [|p| | |]; try discriminate Hshape. destruct p; discriminate Hty. }
     destruct Hot as [Hsot Htot].
     unfold rule_parse. unfold mbind at 1. unfold mcatch.
     rewrite (Hfix _ _ _ _ _ _ _ Ho Hsot Hor Htot s2 Hcl). reflexivity.
@@ -266,7 +369,7 @@ Proof.
     pose proof (grows_nil _ _ G1 He) as Hsa.
     assert (Hch : o_ignore_constraints o = false -> constraints_hold re vals v2).
     { intros Hi. apply Hh; [exact Hi|congruence]. }
-    destruct args as [|a [|]]; try discriminate Hshape.
+    destruct args as [|a [|b [|]]]; try discriminate Hshape.
     + (* no args: the value is what the origin returned *)
       assert (Eap : args_parser_of origin [] ell = APNone) by (destruct origin; reflexivity).
       rewrite Eap in Hap. injection Hap as <- <-.
@@ -304,6 +407,29 @@ Proof.
         unfold lift. cbn [base_prim]. rewrite Hrb2. reflexivity. }
       destruct v2; try contradiction;
         (unfold mbind at 1; rewrite Hgo; apply Htail; exact Hch).
+    + (* a mapping *)
+      destruct origin as [[|p| | |]|]; try discriminate Hshape. destruct p; try discriminate Hshape.
+      apply andb_prop in Hshape. destruct Hshape as [Hsk Hsv].
+      change (args_parser_of (Some (TPrim TDict)) [a; b] ell) with APMap in Hap.
+      unfold parse_map_args in Hap. destruct (dict_items v1) as [items|]; [|discriminate Hap].
+      apply mbind_ok in Hap. destruct Hap as (sr & res & Hi & Hap). injection Hap as <- <-.
+      destruct (map_items_produced o depth a b Ho _ _ _ _ _ Hi) as [G0 Hn].
+      assert (Hs1 : e_errors sr = e_errors s1) by (rewrite Hsa; symmetry; eapply grows_nil; eassumption).
+      assert (Hg0 : good_map o depth a b []) by (repeat split; constructor).
+      destruct (Hn Hs1 Hg0) as (Hkd & Hks & Hvs).
+      cbn [typed] in Hty.
+      assert (Hre : Forall (fun kv => refixed o depth a (fst kv) /\ hashable_deep (fst kv) = true /\ refixed o depth b (snd kv)) res).
+      { rewrite forallb_Forall in Hty. rewrite Forall_forall in *. intros kv Hin.
+        specialize (Hty kv Hin). apply andb_prop in Hty. destruct Hty as [Hty1 Hty2].
+        destruct (Hks kv Hin) as [Hp Hh']. specialize (Hvs kv Hin).
+        repeat split; [apply enter_fixed; auto|exact Hh'|apply enter_fixed; auto]. }
+      apply origin_ok in Hor.
+      unfold rule_parse. unfold mbind at 1. unfold mcatch.
+      rewrite (Hprim _ _ _ _ _ _ _ (PDict res) s2 Hor eq_refl).
+      change (args_parser_of (Some (TPrim TDict)) [a; b] ell) with APMap.
+      unfold mbind at 1. unfold parse_map_args. cbn [dict_items]. unfold mbind at 1.
+      rewrite (map_items_refixed o depth a b res Hre [] s2 Hkd). cbn [app]. unfold ret at 1.
+      apply Htail; exact Hch.
 Qed.
 
 (* ---- logical types ---- *)
@@ -367,7 +493,7 @@ End Step.
 Definition typed_tr (tr : knot) : Prop :=
   forall o depth t v s s' w, throwing o -> stable t = true ->
     tr o depth t v s = (s', Ok w) -> ints_exact t w = true ->
-    typed t w = true /\ (exact_arm t = true -> exact_type t w = true).
+    typed t w = true /\ (exact_arm t = true -> exact_type t w = true) /\ (t = TPrim TDict -> w <> PNone).
 
 Section Typed.
 Variable tr : knot.
@@ -375,7 +501,7 @@ Hypothesis Htyp : typed_tr tr.
 
 Lemma enter_typed o depth a x r : throwing o -> stable a = true ->
   enter_tr tr o depth true a x = Entered (Ok r) -> ints_exact a r = true ->
-  typed a r = true /\ (exact_arm a = true -> exact_type a r = true).
+  typed a r = true /\ (exact_arm a = true -> exact_type a r = true) /\ (a = TPrim TDict -> r <> PNone).
 Proof.
   intros Ho Hst H Hi. unfold enter_tr, in_fresh in H.
   destruct (depth_check o (new_depth depth true)); try discriminate H;
@@ -444,7 +570,7 @@ Proof.
   destruct ct as [c|]; [discriminate Hct|]. clear Hct.
   destruct (rule_parse_inv _ _ _ _ _ _ _ _ _ _ _ _ Hck H) as (s1 & v1 & Hor & Hcase).
   cbn [typed ints_exact] in *.
-  destruct args as [|a [|]]; try discriminate Hshape.
+  destruct args as [|a [|b [|]]]; try discriminate Hshape.
   - (* no args: the result is what the origin returned *)
     destruct origin as [ot|]; [|reflexivity].
     assert (Hw : w = v1).
@@ -458,7 +584,7 @@ Proof.
       pose proof Hor as Hx.
       assert (Hst : stable (TPrim p) = true) by reflexivity.
       assert (Hi0 : ints_exact (TPrim p) PNone = true) by (destruct p; reflexivity).
-      destruct (Htyp _ _ _ _ _ _ _ Ho Hst Hx Hi0) as [_ Hex].
+      destruct (Htyp _ _ _ _ _ _ _ Ho Hst Hx Hi0) as [_ [Hex _]].
       assert (Ha : exact_arm (TPrim p) = true) by (destruct p; try discriminate Hsp; reflexivity).
       specialize (Hex Ha). destruct p; discriminate Hex || discriminate Hsp. }
     rewrite (seq_parser p ell a Hsp) in Hap.
@@ -474,6 +600,26 @@ Proof.
     apply Hsub in HF. rewrite forallb_Forall in *. rewrite Forall_forall in *.
     intros x Hx. destruct (HF x Hx) as [x0 Hx0].
     eapply enter_typed; [exact Ho|exact Hsa|exact Hx0|apply Hi; exact Hx].
+  - (* a mapping *)
+    destruct origin as [[|p| | |]|]; try discriminate Hshape. destruct p; try discriminate Hshape.
+    apply andb_prop in Hshape. destruct Hshape as [Hsk Hsv].
+    destruct Hcase as [(ot' & _ & -> & ->)|(sa & Hap & He)].
+    { (* dict(...) never returns None *) exfalso.
+      destruct (Htyp _ _ _ _ _ _ _ Ho (eq_refl : stable (TPrim TDict) = true) Hor eq_refl) as [_ [_ Hnn]].
+      apply Hnn; reflexivity. }
+    change (args_parser_of (Some (TPrim TDict)) [a; b] ell) with APMap in Hap.
+    unfold parse_map_args in Hap. destruct (dict_items v1) as [items|]; [|discriminate Hap].
+    apply mbind_ok in Hap. destruct Hap as (sr & res & Hit0 & Hap). injection Hap as <- <-.
+    destruct (map_items_produced tr o depth a b Ho _ _ _ _ _ Hit0) as [G0 Hn].
+    assert (Hs1 : e_errors sr = e_errors s1) by (rewrite He; symmetry; eapply grows_nil; eassumption).
+    assert (Hg0 : good_map tr o depth a b []) by (repeat split; constructor).
+    destruct (Hn Hs1 Hg0) as (Hkd & Hks & Hvs).
+    rewrite forallb_Forall in *. rewrite Forall_forall in *. intros kv Hin.
+    specialize (Hi kv Hin). apply andb_prop in Hi. destruct Hi as [Hi1 Hi2].
+    destruct (Hks kv Hin) as [[k0 Hk0] _]. destruct (Hvs kv Hin) as [v0 Hv0].
+    apply andb_true_intro. split.
+    + eapply enter_typed; [exact Ho|exact Hsk|exact Hk0|exact Hi1].
+    + eapply enter_typed; [exact Ho|exact Hsv|exact Hv0|exact Hi2].
 Qed.
 
 (* ---- unions: a stage returns what one of the arguments returned for the input ---- *)
@@ -518,7 +664,7 @@ Proof.
   (* a result produced by an argument is an exact instance of it *)
   assert (Hprod : forall o', throwing o' -> forall a, In a args -> enter_tr tr o' depth true a v = Entered (Ok w) -> False).
   { intros o' Ho' a Hin E. rewrite forallb_forall in Harms. pose proof (Harms a Hin) as Ha.
-    destruct (enter_typed o' depth a v w Ho' (exact_arm_stable a Ha) E (exact_arm_not_bool a w Ha Hi)) as [_ Hex].
+    destruct (enter_typed o' depth a v w Ho' (exact_arm_stable a Ha) E (exact_arm_not_bool a w Ha Hi)) as [_ [Hex _]].
     specialize (Hex Ha).
     assert (Hc : existsb (fun a => exact_type a w) args = true) by (apply existsb_exists; eauto).
     congruence. }
@@ -551,12 +697,16 @@ Qed.
 Lemma transform_step_typed : typed_tr (transform_step re D tr).
 Proof.
   intros o depth t v s s' w Ho Hst H Hi. destruct t as [|p|origin args ell vals ct mn mx|op args|c]; cbn [transform_step] in *.
-  - split; [reflexivity|discriminate].
-  - split; [exact Hi|]. intros Ha. cbn [exact_type]. unfold lift in H. injection H as _ H.
-    cbn [ints_exact] in Hi. apply negb_true_iff in Hi. eapply conv_prim_exact; eassumption.
-  - split; [eapply rule_parse_typed; eassumption|discriminate].
-  - split; [eapply logical_parse_typed; eassumption|discriminate].
-  - split; [reflexivity|]. intros _.
+  - split; [reflexivity|]. split; discriminate.
+  - split; [exact Hi|]. unfold lift in H. injection H as _ H. split.
+    + intros Ha. cbn [exact_type].
+      cbn [ints_exact] in Hi. apply negb_true_iff in Hi. eapply conv_prim_exact; eassumption.
+    + intros E. injection E as ->. intros ->.
+      assert (Hx : prim_isinstance TDict PNone = true) by (eapply conv_prim_sound; [exact H|reflexivity]).
+      discriminate Hx.
+  - split; [eapply rule_parse_typed; eassumption|]. split; discriminate.
+  - split; [eapply logical_parse_typed; eassumption|]. split; discriminate.
+  - split; [reflexivity|]. split; [|discriminate]. intros _.
     assert (Hw : exists kvs, w = PInst c kvs).
     { destruct v; try (unfold lift in H; injection H as _ H; eapply transform_dataclass_inst; exact H).
       destruct (Nat.eqb c c0) eqn:Ec.
